@@ -476,11 +476,13 @@ class SxInt:
         o = object.__new__(cls)
         o.v = v
         o.z = z
+        o.m = getattr(value, 'm', None) if z is not None else None
         return o
 
     @staticmethod
-    def wrap(x):
-        """plain int if the term simplifies to a value, else SxInt"""
+    def wrap(x, m=None):
+        """plain int if the term simplifies to a value, else SxInt.  m: mask of the bits that can
+        be set in a non-negative value (None = unknown), used to keep | ^ & in linear arithmetic"""
         if z3.is_expr(x):
             x = z3.simplify(x)
             if z3.is_int_value(x) or z3.is_bv_value(x):
@@ -488,6 +490,7 @@ class SxInt:
             o = object.__new__(SxInt)
             o.v = None
             o.z = x
+            o.m = m
             return o
         return x
 
@@ -702,6 +705,41 @@ SxInt.__rpow__ = lambda s, o: _pow(o, s)
 
 # ---- bit operations
 
+def maskof(o):
+    """possible-bits mask of a non-negative int-ish value, or None"""
+    if _isinstance(o, SxInt):
+        if o.z is None:
+            return o.v if o.v >= 0 else None
+        if z3.is_bv(o.z):
+            return (1 << o.z.size()) - 1
+        return getattr(o, 'm', None)
+    if _isinstance(o, _bool):
+        return _int(o)
+    if _isinstance(o, _int):
+        return o if o >= 0 else None
+    if _isinstance(o, SxBool):
+        return 1
+    return None
+
+
+def _disjoint(a, b):
+    """can a | b be computed as a + b ?  (mask bookkeeping first, one LIA proof as a fallback)"""
+    ma, mb = maskof(a), maskof(b)
+    if ma is not None and mb is not None:
+        if ma & mb == 0:
+            return True
+    for (x, mx, y, my) in ((a, ma, b, mb), (b, mb, a, ma)):
+        if mx is not None and mx > 0 and _is_mask_run(mx) is not None:
+            ky, ty = _lift(y)
+            if ky == 'i':
+                lo, n = _is_mask_run(mx)
+                e = Engine.cur
+                r = e._check(z3.Not(z3.And(ty >= 0, (ty / (1 << lo)) % (1 << n) == 0)))
+                if r == z3.unsat:
+                    return True
+    return False
+
+
 
 def _is_mask_run(m):
     """m == ((1<<n)-1) << lo  ->  (lo, n) else None"""
@@ -722,7 +760,11 @@ def _bvpair(a, b):
         if k == 'b':
             w = max(w or 0, x.size())
     if w is None:
-        w = 64
+        ms = [maskof(o) for o, k in ((a, ka), (b, kb)) if k == 'i']
+        if ms and all(m is not None for m in ms):
+            w = max([m.bit_length() for m in ms] + [1])
+        else:
+            w = 64
     for k, x in ((ka, xa), (kb, xb)):
         if k == 'c':
             if x < 0:
@@ -755,7 +797,7 @@ def _and(s, o):
                 e = E()
                 if not e.sat(x1 < 0):
                     lo, n = run
-                    return SxInt.wrap(((x1 / (1 << lo)) % (1 << n)) * (1 << lo))
+                    return SxInt.wrap(((x1 / (1 << lo)) % (1 << n)) * (1 << lo), m=x2)
     p = _bvpair(s, o)
     return SxInt.wrap(p[0] & p[1])
 
@@ -771,6 +813,9 @@ def _or(s, o):
         return o
     if (kb == 'c' and xb == 0):
         return s
+    if 'b' not in (ka, kb) and _disjoint(s, o):
+        ma, mb = maskof(s), maskof(o)
+        return SxInt.wrap(_toint(ka, xa) + _toint(kb, xb), m=(ma | mb) if ma is not None and mb is not None else None)
     p = _bvpair(s, o)
     return SxInt.wrap(p[0] | p[1])
 
@@ -782,6 +827,8 @@ def _xor(s, o):
         return NotImplemented
     if ka == 'c' and kb == 'c':
         return xa ^ xb
+    if 'b' not in (ka, kb) and maskof(s) is not None and maskof(o) is not None and maskof(s) & maskof(o) == 0:
+        return SxInt.wrap(_toint(ka, xa) + _toint(kb, xb), m=maskof(s) | maskof(o))
     p = _bvpair(s, o)
     return SxInt.wrap(p[0] ^ p[1])
 
@@ -823,7 +870,10 @@ def _shift(a, n, right):
         if right:
             return SxInt.wrap(z3.LShR(xa, n) if n < xa.size() else z3.BitVecVal(0, xa.size()))
         return SxInt.wrap(z3.ZeroExt(n, xa) << n)
-    return SxInt.wrap(xa / (1 << n)) if right else SxInt.wrap(xa * (1 << n))
+    ma = maskof(a)
+    if right:
+        return SxInt.wrap(xa / (1 << n), m=(ma >> n) if ma is not None else None)
+    return SxInt.wrap(xa * (1 << n), m=(ma << n) if ma is not None else None)
 
 
 SxInt.__rshift__ = lambda s, n: _shift(s, n, True)
@@ -988,7 +1038,10 @@ def symint(name, lo=None, hi=None):
         e.add(z >= lo)
     if hi is not None:
         e.add(z <= hi)
-    return SxInt.wrap(z)
+    m = None
+    if lo is not None and hi is not None and _isinstance(lo, _int) and _isinstance(hi, _int) and lo >= 0:
+        m = (1 << hi.bit_length()) - 1
+    return SxInt.wrap(z, m=m)
 
 
 def symbv(name, w):
